@@ -1,4 +1,4 @@
-import OrsoVerif.Lemmas.IsoText
+import OrsoVerif.Lemmas.IsoDigits
 /-! Helper lemmas for C08: civil-from-days inverts days-from-civil. -/
 namespace Iso
 
